@@ -9,12 +9,18 @@ RULE = ('random interleavings (8-30 operations quick, 12-56 thorough, 1-4 instan
         'placed again = new inode/ctime = new generation; refresh-by-rename while not ready; manifests the node '
         'cannot configure), readiness flips by the real EventMgr._cache_notify, delivery of the pending inotify '
         'events one at a time to the real AppCfgMgr handlers, containers ending on their own (real '
-        'MonitorContainerDown/MonitorContainerCleanup, flag_aborted, oom flag), cleanup completing (real '
-        'Cleanup.invoke) at arbitrary later points, manager restarts and node starts; the real appcfg.configure runs '
+        'MonitorContainerDown, flag_aborted, oom flag, SIGABRT), tombstone files left in tombstones/running by the '
+        'supervisor for ended and for terminated containers at arbitrary later points, the real node monitor '
+        '(treadmill.monitor.Monitor.run with MonitorContainerCleanup) as a restartable actor that re-reads the '
+        'tombstone directory at every start, s6 control commands (svscan/svc) failing with CalledProcessError at '
+        'scripted points in the monitor actions and in AppCfgMgr._refresh_supervisor (= the manager dies and is '
+        'restarted), cleanup completing (real Cleanup.invoke) at arbitrary later points, manager restarts and node '
+        'starts; the real appcfg.configure runs '
         'for every container. After every handler call and every actor step the listing of running/, cleanup/, '
         'apps/ (+ exitinfo|aborted|oom flags) and cache/ is evaluated: I1 <= 1 link per container, I3 finished or '
         'cleaned containers never gain a running link, I4 unfinished running container with unchanged cache '
-        'generation keeps its link across a handler, I5 handled delete => handed to cleanup, I2 after each '
+        'generation keeps its link across a handler, a manager crash and a monitor run, I5 handled delete => handed '
+        'to cleanup, I2 after each '
         'idle->active synchronisation running links == configurable cached generations and stale generations are in '
         'cleanup. Generations are identified by a marker inside the manifest, not by the repository\'s naming '
         'functions. Non-trivial: a synchronisation ran while container directories existed, or two generations of '
@@ -29,8 +35,16 @@ ASSUMPTIONS = [
     'cache files are written by the harness with the same calls EventMgr._cache/_synchronize use (fs.write_safe '
     'with dot prefix, os.unlink); refresh-by-rename only while .ready is absent',
     'a manifest that cannot be configured = one asking for a feature the node does not offer (features: [docker])',
-    'the node monitor processes a finished container\'s tombstone (id = instance name) before the same instance is '
-    'configured again; a tombstone whose container is no longer the running target is dropped',
+    'plugin_manager.load(treadmill.tombstones, container-cleanup) -> MonitorContainerCleanup (no entry points); the '
+    'monitor config is the tombstones/running line of bootstrap/node/linux/init/monitor.yml',
+    'the supervisor boundary (s6 finish script) is the driver touching tombstones/running/<instance>,<t>,<rc>,<sig> '
+    'once per container whose supervised process died (ended on its own, or taken out of running/ by the manager)',
+    'Monitor.run() is the real loop: _configure runs at the first entry of a monitor life only (wrapper returns '
+    'early afterwards) and the loop is left through wait_for_events raising when nothing is pending',
+    'a CalledProcessError of an armed s6 failure escaping an AppCfgMgr handler is the manager process dying: I1/I3/I4 '
+    'are evaluated on the state it leaves, then a new manager starts (idle)',
+    '40% "tidy" histories (prompt events and monitor, old containers cleaned before a synchronisation, s6 failures '
+    'only inside the monitor) keep long runs free of the stale-event races',
     'node start = run_real.sh emptying running/ and cleanup/, .ready removed, new manager',
     'container ids derive from the real st_ctime/st_ino of the cache file, so the set order inside _synchronize '
     'varies with PYTHONHASHSEED and between runs; both orders are reached statistically, a replay may take the '
@@ -42,7 +56,10 @@ BUDGET = {'quick': (400, 30.0), 'thorough': (6000, 270.0)}
 HASHSEEDS = [0, 1, 2, 3, 4, 5, 6, 7]
 REQUIRED_REACH = {'*': [
     'syncs_with_containers', 'manager_restarts', 'node_starts', 'observations_two_generations_coexist',
-    'placed_again_while_old_generation_exists', 'self_finish', 'tombstones_processed', 'cleanups_completed',
+    'placed_again_while_old_generation_exists', 'self_finish', 'cleanups_completed',
+    'tombstones_written_ended_container', 'tombstones_written_terminated_container', 'tombstones_executed',
+    'monitor_runs', 'monitor_restarts', 'monitor_restarts_with_tombstones_left', 's6_failures_in_monitor_svscan',
+    'manager_crashes_on_s6_failure', 'i4_monitor_step_evaluations',
     'events_created', 'events_deleted', 'stale_deleted_events', 'cache_put_unconfigurable',
     'i1_container_evaluations', 'i2_new_generation_evaluations', 'i2_existing_generation_evaluations',
     'i2_idle_container_evaluations', 'i2_finished_generation_evaluations', 'i2_stale_container_evaluations',
@@ -62,7 +79,11 @@ def run(ctx):
     from .. import rt
     known = _known_mechanisms()
     shrunk = set()
+    from ..node import c13_drv
     for idx, rng in ctx.cases():
+        c13_drv.ROOT_VIA_SYMLINK = idx % 4 == 1
+        if c13_drv.ROOT_VIA_SYMLINK:
+            ctx.count('cases_root_via_symlink')
         gen = engine.Gen(rng, ctx.tier)
         run_ = engine.Run()
         ops = []
